@@ -481,6 +481,30 @@ func c17MergeExpect(doc map[string]any, cfg *configv1.Config) []string {
 					bad = append(bad, fmt.Sprintf("merge:%s expected %q got %q", k, v[0], v[1]))
 				}
 			}
+			// scopes, as a set (order and repetition are not fixed by the statement): exactly the default's, this
+			// override's and "openid" - nothing lost, nothing that only another chain's override declares
+			want := map[string]bool{"openid": true}
+			for _, src := range []map[string]any{def, ov} {
+				if l, ok := src["scopes"].([]any); ok {
+					for _, x := range l {
+						if sx, ok := x.(string); ok {
+							want[sx] = true
+						}
+					}
+				}
+			}
+			have := map[string]bool{}
+			for _, sx := range got.Scopes {
+				have[sx] = true
+				if !want[sx] {
+					bad = append(bad, fmt.Sprintf("merge:scopes chain %d has scope %q that neither the default nor its override declares", ci, sx))
+				}
+			}
+			for sx := range want {
+				if !have[sx] {
+					bad = append(bad, fmt.Sprintf("merge:scopes chain %d lacks scope %q", ci, sx))
+				}
+			}
 		}
 	}
 	sort.Strings(bad)
@@ -515,8 +539,8 @@ func c17RunCase(c c17Case) (c17Outcome, string) {
 }
 
 func c17Run(run *ev.Run) {
-	run.Rule = "three honest base documents (plain oidc; default+override; two chains) with every single deviation and every pair of deviations (triples in thorough) from a grammar over all fields/oneof arms/filter slots of config.proto and oidc/config.proto ({omitted, empty, odd-but-type-correct}); plus every shipped fixture with every single member deletion; each document loaded by the real LocalConfigFile.Validate(); oracle: no panic, and error XOR a Config passing an independent post-condition predicate; class = (accepted|rejected|panic, deviating fields)"
-	run.Assumptions = []string{"repeated fields are not compared in the merge check (proto merge appends; the statement does not say)", "only JSON documents that protojson can type are in the grammar; syntactically broken JSON is rejected by the decoder"}
+	run.Rule = "three honest base documents (plain oidc; default+override; two chains) with every single deviation and every pair of deviations (triples in thorough) from a grammar over all fields/oneof arms/filter slots of config.proto and oidc/config.proto ({omitted, empty, odd-but-type-correct}); plus default scope lists of 0..8 entries x two and three overriding chains (scopes merged as sets, nothing of another chain); plus every shipped fixture with every single member deletion; each document loaded by the real LocalConfigFile.Validate(); oracle: no panic, and error XOR a Config passing an independent post-condition predicate; class = (accepted|rejected|panic, deviating fields)"
+	run.Assumptions = []string{"repeated fields are compared as sets in the merge check (proto merge appends; the statement fixes neither order nor repetition)", "only JSON documents that protojson can type are in the grammar; syntactically broken JSON is rejected by the decoder"}
 	var cases []c17Case
 	for _, shape := range []string{"plain", "override", "two-chains"} {
 		ds := c17Deviations(shape)
@@ -576,6 +600,58 @@ func c17Run(run *ev.Run) {
 		}
 		gen(nil)
 	}
+	// scope lists across several overriding chains: default lists of 0..8 scopes (with and without "openid") x two
+	// and three chains whose overrides add nothing, "openid", a scope of their own, or both
+	nScopeDocs := 0
+	for k := 0; k <= 8; k++ {
+		for _, withOpenID := range []bool{false, true} {
+			if k == 0 && withOpenID {
+				continue
+			}
+			var defScopes []any
+			for i := 0; i < k; i++ {
+				defScopes = append(defScopes, fmt.Sprintf("s%d", i))
+			}
+			if withOpenID {
+				defScopes[0] = "openid"
+			}
+			for nch := 2; nch <= 3; nch++ {
+				combos := 1
+				for i := 0; i < nch; i++ {
+					combos *= 4
+				}
+				for c := 0; c < combos; c++ {
+					def := c17HonestOIDC()
+					if defScopes != nil {
+						def["scopes"] = defScopes
+					}
+					doc := map[string]any{"listen_address": "0.0.0.0", "listen_port": 8080, "log_level": "debug", "default_oidc_config": def}
+					var chains []any
+					x := c
+					for ci := 0; ci < nch; ci++ {
+						ov := map[string]any{"cookie_name_prefix": fmt.Sprintf("c%d", ci)}
+						switch x % 4 {
+						case 1:
+							ov["scopes"] = []any{"openid"}
+						case 2:
+							ov["scopes"] = []any{fmt.Sprintf("own%d", ci)}
+						case 3:
+							ov["scopes"] = []any{"openid", fmt.Sprintf("own%d", ci)}
+						}
+						x /= 4
+						chains = append(chains, map[string]any{"name": fmt.Sprintf("c%d", ci),
+							"match":   map[string]any{"header": "x-tenant", "equality": fmt.Sprintf("t%d", ci)},
+							"filters": []any{map[string]any{"oidc_override": ov}}})
+					}
+					doc["chains"] = chains
+					b, _ := json.Marshal(doc)
+					cases = append(cases, c17Case{Shape: "override-scopes", Doc: string(b)})
+					nScopeDocs++
+				}
+			}
+		}
+	}
+	run.Extra["override_scope_documents"] = nScopeDocs
 	// shipped fixtures with single-member deletions
 	repo := os.Getenv("VERIF_REPO")
 	if repo == "" {
